@@ -126,9 +126,9 @@ def pclass(pat):
     """Finite class of a pattern text; the unit of the violation signature."""
     if pat.startswith('"'):
         return "quoted"
-    if len(pat.encode()) < 4:
-        return "short-prefix<4"
     toks = tokenize(pat)
+    if len(pat.encode()) < 4 or (all(t[0] in ("lit", "esc") for t in toks) and len(toks) < 4):
+        return "short-prefix<4"
     if "**" in pat and any(toks[i][0] == toks[i + 1][0] == "star" for i in range(len(toks) - 1)):
         return "double-star"
     if any(t[0] == "ubr" for t in toks):
@@ -342,6 +342,7 @@ def placement(path):
 
 
 ENV = {"RUST_BACKTRACE": "0"}
+UNJUDGED = "UNJUDGED"
 _lock = threading.Lock()
 ALONE = {}      # (pattern) -> effect of wild linking a script with only that pattern ('panic'/'rejected'/None)
 SIGCACHE = {}   # raw difference key -> signature found by the full examination (None: agreed in isolation)
@@ -460,10 +461,10 @@ def minimise(ctx, sec_name, fname, filepat, pat, keep, effect, tag):
 def record(ctx, sig, desc, case_id, files, info):
     with _lock:
         RECORDED[sig] = RECORDED.get(sig, 0) + 1
-        first = RECORDED[sig] <= 2
+        first = RECORDED[sig] <= 1
     ctx.note("difference:" + sig)
     if first:
-        log(f"[C15] {sig} :: {desc[:300]}")
+        log(f"[C15] case {case_id}: {sig} :: {desc[:300]}")
         ctx.violation(sig, desc, case=case_id, files=files, info=info)
 
 
@@ -476,14 +477,24 @@ def examine(ctx, case_id, sec, desc, pat, tag):
     if eff is None:
         if iso["ld"] not in ("FAIL", iso["model"]):
             ctx.note("isolated-model-disagrees-with-ld:" + pclass(pat))
+            return UNJUDGED
         return None
+    if eff == "keep-discarded":
+        # is KEEP involved at all, or does the pattern simply never match?
+        live = dict(sec, live=True)
+        r2 = examine(ctx, case_id, live, dict(desc, keep=False), pat, tag + "-live")
+        if r2 not in (None, UNJUDGED):
+            return r2
     if desc["filepat"] != "*":
         # is the file pattern or the section pattern responsible?
         iso2 = isolate(ctx, sec["name"], sec["file"], "*", pat, keep, tag + "-anyfile")
         if classify_diff(iso2, keep) is not None:
             # the section pattern fails on its own: analyse it without the file pattern
             return examine(ctx, case_id, sec, dict(desc, filepat="*"), pat, tag + "-nofp")
-        if iso2["ld"] == iso2["model"]:
+        if iso2["ld"] != iso2["model"]:
+            ctx.note("isolated-model-disagrees-with-ld:" + pclass(pat))
+            return UNJUDGED
+        else:
             fp = desc["filepat"]
             fcls = ("exact" if not any(c in fp for c in "*?[") else "wildcard") + \
                    (":input-in-subdirectory" if "/" in sec["file"] else "") + (":pattern-has-directory" if "/" in fp else "")
@@ -515,6 +526,8 @@ def examine_cached(ctx, case_id, sec, desc, pat, tag, guess):
             ctx.note("difference-classified-from-cache")
             return sig
     sig = examine(ctx, case_id, sec, desc, pat, tag)
+    if sig == UNJUDGED:
+        return sig
     with _lock:
         old = SIGCACHE.get(key)
         if sig is not None and (old is None or old[0] == sig):
@@ -636,7 +649,7 @@ def one_case(ctx, i):
         record(ctx, "output-unreadable", f"wild output cannot be parsed: {ex}", f"{i}", {"case": d}, None)
         return
     checked = 0
-    budget = 6
+    budget = 4
     for s in case["secs"]:
         m = f"m_{s['id']}"
         l = lp.get(m)
@@ -668,16 +681,22 @@ def one_case(ctx, i):
         # candidates: the description ld used (the model agrees with it), then every description
         # of the output section wild chose.
         cands = []
-        if mdesc is not None:
-            cands.append((mdesc, mpat))
+        if l.startswith(".out"):
+            for dd in case["outs"][int(l[4:])]:
+                if file_model(dd["filepat"], s["file"]):
+                    cands += [(dd, p) for p in dd["pats"] if model_match(p, s["name"]) and (dd, p) not in cands]
         if wv and wv.startswith(".out") and wv[4:].isdigit() and int(wv[4:]) < len(case["outs"]):
             for dd in case["outs"][int(wv[4:])]:
                 for p in dd["pats"]:
                     if (dd, p) not in cands:
                         cands.append((dd, p))
         hit = False
-        for k, (dd, p) in enumerate(cands):
-            if examine_cached(ctx, f"{i}", s, dd, p, f"{i}-s{s['id']}-{k}", guess):
+        unjudged = False
+        for k, (dd, p) in enumerate(cands[:6]):
+            res = examine_cached(ctx, f"{i}", s, dd, p, f"{i}-s{s['id']}-{k}", guess)
+            if res == UNJUDGED:
+                unjudged = True
+            elif res:
                 hit = True
                 break
         if hit:
@@ -694,7 +713,17 @@ def one_case(ctx, i):
                            f"section), wild discards it", f"{i}", {"iso": iso["dir"]},
                            {"section": s["name"], "first": mpat, "keep": kp})
                     continue
+        if unjudged:
+            ctx.inconclusive("difference involves a pattern on which model and reference linker disagree")
+            continue
         lc = pclass(mpat) if mpat else "orphan"
+        if guess.startswith("out->") and (lc.endswith("-in-first-4-bytes") or lc == "leading-wildcard"):
+            # the rule is found only when the 7-bit hash tags of the pattern's and the name's first
+            # four bytes happen to collide, so the isolated script can agree by accident
+            record(ctx, f"pattern-class={lc}:never-matches",
+                   f"section {s['name']!r} of {s['file']}: GNU ld -> {l} (pattern `{mpat}`), wild -> {wv}",
+                   f"{i}", {"case": d}, {"section": s["name"], "ld": l, "wild": wv, "pattern": mpat})
+            continue
         record(ctx, f"rule-interaction:ld-rule={lc}:{guess}",
                f"section {s['name']!r} of {s['file']}: GNU ld -> {l}, wild -> {wv}; every single description agrees "
                f"in isolation", f"{i}", {"case": d}, {"section": s["name"], "ld": l, "wild": wv})
@@ -708,35 +737,52 @@ def one_case(ctx, i):
 
 
 PINNED = [
-    # (section name, pattern, keep)
-    (".data.foo", "*foo", False),
-    (".data.foo", "[.]data.foo", False),
-    (".tx1", ".t*", False),
-    (".data.keepme", ".data.k*", True),
-    (".data.keepme", "*keepme", True),
-    (".dataA1", ".data?1", False),
-    (".dataA1", ".dat?A1", False),
-    (".data*x", ".data[*]x", False),
-    (".dataA1", ".data[!x]1", False),
-    (".dataA1", ".data[^x]1", False),
-    ("abc", "abc", False),
+    # (section name, pattern, keep, input file, file pattern)
+    (".data.foo", "*foo", False, "a1.o", "*"),
+    (".data.foo", "[.]data.foo", False, "a1.o", "*"),
+    (".data.foo", ".d?ta.foo", False, "a1.o", "*"),
+    (".data.foo", ".da*", False, "a1.o", "*"),
+    (".tx1", ".t*", False, "a1.o", "*"),
+    ("abc", "abc", False, "a1.o", "*"),
+    (".data.keepme", ".data.k*", True, "a1.o", "*"),
+    (".data.keepme", "*keepme", True, "a1.o", "*"),
+    (".dataA1", ".data?1", False, "a1.o", "*"),
+    (".data*x", ".data[*]x", False, "a1.o", "*"),
+    (".dataA1", ".data[!x]1", False, "a1.o", "*"),
+    (".dataA1", ".data[^x]1", False, "a1.o", "*"),
+    (".dataA1", ".data**", False, "a1.o", "*"),
+    (".data[x", ".data[x", False, "a1.o", "*"),
+    (".dataA1", '".dataA1"', False, "a1.o", "*"),
+    (".dataA1", ".dataA1", False, "sub/c3.o", "sub/c3.o"),
+    (".dataA1", ".dataA1", False, "sub/c3.o", "sub/*"),
+    (".dataA1", ".dataA1", False, "sub/c3.o", "c*.o"),
+    (".dataA1", ".dataA1", False, "a1.o", "a1.o"),
+    (".dataA1", ".dataA1", False, "a1.o", "*1.o"),
 ]
 
 
 def pinned(ctx):
-    for n, (name, pat, keep) in enumerate(PINNED):
-        sec = dict(id=0, file="a1.o", name=name, live=not keep)
-        desc = dict(keep=keep, filepat="*", pats=[pat])
-        iso = isolate(ctx, name, "a1.o", "*", pat, keep, f"p{n}-probe")
-        if iso["ld"] == "FAIL":
-            ctx.inconclusive("pinned: reference rejected")
-            continue
-        if iso["ld"] != ".out0" or not model_match(pat, name):
+    for n, (name, pat, keep, fname, fpat) in enumerate(PINNED):
+        sec = dict(id=0, file=fname, name=name, live=not keep)
+        desc = dict(keep=keep, filepat=fpat, pats=[pat])
+        res = examine(ctx, f"pinned{n}", sec, desc, pat, f"p{n}")
+        if res == UNJUDGED:
             ctx.inconclusive("pinned: model and reference linker disagree")
-            continue
-        if not examine(ctx, f"pinned{n}", sec, desc, pat, f"p{n}"):
-            ctx.held(fingerprint=f"pinned:{name}:{pat}:{keep}", nontrivial=True)
+        elif res is None:
+            ctx.held(fingerprint=f"pinned:{name}:{pat}:{keep}:{fname}:{fpat}", nontrivial=True)
         ctx.note("patclass:" + pclass(pat))
+    # KEEP in a later description than a plain one matching the same unreferenced section
+    iso = isolate(ctx, ".data.keepme", "a1.o", "*", ".data.keepme", True, "p-keep-later",
+                  extra_first=dict(keep=False, filepat="*", pats=[".data.k*"]))
+    if iso["ld"] == ".out0" and iso["wild"] is None:
+        record(ctx, "keep-after-non-keep-description:discarded",
+               "unreferenced section '.data.keepme' matches `*(.data.k*)` first and `KEEP(*(.data.keepme))` later: GNU ld "
+               "keeps it (any KEEP match protects the section), wild discards it", "pinned-keep-later",
+               {"iso": iso["dir"]}, None)
+    elif iso["ld"] == ".out0" and iso["wild"] == ".out0":
+        ctx.held(fingerprint="pinned:keep-later", nontrivial=True)
+    else:
+        ctx.inconclusive("pinned: reference does not keep the section")
 
 
 def main(ctx):
